@@ -294,6 +294,38 @@ func Directed(rng *rand.Rand, k int) *Topo {
 	}
 }
 
+// Lines builds a topology of nCore core ASes in a line (core links) with two chains of non-core ASes:
+// chain A of length la hangs below the first core AS, chain B of length lb below the last one.
+// It returns the topology, the last AS of chain A and the last AS of chain B (the core AS itself
+// if the chain is empty). Used for path segments close to the SCION limits (64 hop fields per
+// path, 63 per segment).
+func Lines(rng *rand.Rand, nCore, la, lb int) (*Topo, addr.IA, addr.IA) {
+	n := nCore + la + lb
+	isd := make([]int, n)
+	for i := range isd {
+		isd[i] = 1
+	}
+	var links []LinkSpec
+	for i := 1; i < nCore; i++ {
+		links = append(links, LinkSpec{i - 1, i, "core"})
+	}
+	endA, endB := 0, nCore-1
+	prev := 0
+	for i := 0; i < la; i++ {
+		links = append(links, LinkSpec{prev, nCore + i, "child"})
+		prev = nCore + i
+		endA = prev
+	}
+	prev = nCore - 1
+	for i := 0; i < lb; i++ {
+		links = append(links, LinkSpec{prev, nCore + la + i, "child"})
+		prev = nCore + la + i
+		endB = prev
+	}
+	t := FromSpec(rng, isd, nCore, links)
+	return t, t.Order[endA], t.Order[endB]
+}
+
 func (t *Topo) linked(a, b addr.IA) bool {
 	for _, l := range t.Links {
 		if (l.A == a && l.B == b) || (l.A == b && l.B == a) {
